@@ -92,7 +92,11 @@ pub mod model_selection;
 pub mod naive_bayes;
 /// Supervised neighbors-based learning methods
 pub mod neighbors;
+#[cfg(not(smartcore_verif))]
 pub(crate) mod optimization;
+#[cfg(smartcore_verif)]
+#[allow(missing_docs)]
+pub mod optimization;
 /// Preprocessing utilities
 pub mod preprocessing;
 /// Support Vector Machines
